@@ -213,7 +213,9 @@ def step (env : Env) (line : String) : Env × String :=
           let ok := if stop == 0 then decide (sortedV = want)
                     else visited.all (fun i => want.contains i) && decide (sortedV.eraseDups.length = visited.length) &&
                          (visited.length == stop || decide (sortedV = want))
-          (env, s!"{natList visited} | ok={b2s ok} | se{min visited.length 3}")
+          let _ := ok
+          -- the judge evaluates the implementation's own visit list against the brute-force filter
+          (env, s!"{natList visited} | want={natList want};stop={stop} | se{min visited.length 3}")
         | _, _ => (env, "bad-op")
       | none => (env, "bad-op")
     | _, _ => (env, "bad-op")
@@ -257,7 +259,15 @@ def step (env : Env) (line : String) : Env × String :=
       let si := if valid then b2s (Spec.meets a.sh b.sh) else "-"
       -- contact signature: do the curves / boundaries of the two shapes share a point?
       let contact := a.sh.edges.any (fun e => b.sh.edges.any (fun f => Spec.segsMeet e.1 e.2 f.1 f.2))
-      (env, s!"{b2s c}{b2s i}{b2s i2} | {sc}{si}{si} | pr{b2s c}{b2s i}k{b2s contact}")
+      -- a ring or line of >= 16 points is first replaced by its bounding rectangle (the shortcut of
+      -- ringContainsRing): contact between the receiver and that RECTANGLE (finding D19)
+      let bigRects : List (List (Pt × Pt)) := match b.sh with
+        | .line pts => if pts.length ≥ 16 then (match bboxSpec pts with | some r => [Spec.edges (Spec.rectPts r.min r.max) true] | none => []) else []
+        | .poly ext holes => (ext :: holes).filterMap (fun ring => if ring.length ≥ 16 then (bboxSpec ring).map (fun r => Spec.edges (Spec.rectPts r.min r.max) true) else none)
+        | _ => []
+      let contactRect := bigRects.any (fun es => a.sh.edges.any (fun e => es.any (fun f => Spec.segsMeet e.1 e.2 f.1 f.2)))
+      let k := if contact then "1" else if contactRect then "2" else "0"
+      (env, s!"{b2s c}{b2s i}{b2s i2} | {sc}{si}{si} | pr{b2s c}{b2s i}k{k}")
     | _, _ => (env, "bad-op")
   | ["ringseg", id, r, ax, ay, bx, by_, allow] =>
     match env[id]?, r.toNat?, parseInts [ax, ay, bx, by_] with
